@@ -47,6 +47,19 @@ EXTRA = [
 ]
 
 
+# comparison atoms in both operand orders on either table (column first / constant first), as the whole WHERE and under AND
+OPS = ['=', '!=', '<', '<=', '>', '>=']
+ATOMS = ['%s %s 1' % (c, op) for c in ('x.a', 'y.c') for op in OPS] + ['1 %s %s' % (op, c) for c in ('x.a', 'y.c') for op in OPS] + \
+        ['x.a %s y.c' % op for op in OPS[2:]] + ["x.a LIKE y.c", "1 IN (x.a, y.c)", "x.a + 1 > 2", "2 - y.c >= x.a"]
+
+
+def atom_family(tier):
+    js = JOINS[:4] if tier == 'quick' else JOINS
+    out = ['SELECT x.a, y.c FROM int1.t1 AS x %s int2.t2 AS y ON x.id = y.id WHERE %s' % (j, a) for j in js for a in ATOMS]
+    out += ['SELECT x.a, y.c FROM int1.t1 AS x %s int2.t2 AS y ON x.id = y.id WHERE %s AND y.c IS NOT NULL' % (j, a) for j in js[:2] for a in ATOMS[12:24]]
+    return out
+
+
 def family(tier):
     out = []
     if tier == 'quick':
@@ -64,7 +77,7 @@ def family(tier):
         sqls.append(sql)
     # deterministic de-dup preserving order
     seen, res = set(), []
-    for s_ in sqls + EXTRA:
+    for s_ in sqls + EXTRA + atom_family(tier):
         if s_ not in seen:
             seen.add(s_)
             res.append(s_)
@@ -129,7 +142,7 @@ def check_member(sql, R, D, timeout_ms=120000):
         s.add(SR.bags_differ(got, want))
     t0 = time.time()
     r = str(s.check())
-    out = dict(info, solver_s=round(time.time() - t0, 2), obligation='valid-answer' if unordered_limit else 'bag-equality')
+    out = dict(info, solver_s=round(time.time() - t0, 4), obligation='valid-answer' if unordered_limit else 'bag-equality')
     if r == 'unsat':
         out['status'] = 'discharged'
     elif r == 'sat':
@@ -149,7 +162,7 @@ def replay_member(sql, witness):
     from mindsdb_sql import parse_sql
     from mindsdb_sql.planner import plan_query, steps as S
     plan = plan_query(parse_sql(sql, 'mindsdb'), **PL.catalog())
-    con = sqlite3.connect(':memory:')
+    con = SR.connect()
     for integ in ('int1', 'int2'):
         con.execute("ATTACH DATABASE ':memory:' AS %s" % integ)
     for t, cols in SCHEMA.items():
@@ -174,7 +187,7 @@ def replay_member(sql, witness):
     for st in plan.steps:
         if isinstance(st, S.FetchDataframeStep) and ':Result' not in str(st.query):
             try:
-                c2 = sqlite3.connect(':memory:')
+                c2 = SR.connect()
                 for t, cols in SCHEMA.items():
                     if TINT[t] == st.integration:
                         c2.execute('CREATE TABLE %s (%s)' % (t, ', '.join('%s INTEGER' % c for c in cols)))
@@ -226,7 +239,7 @@ def validate_member(sql, R, D, rnd, n=2):
         if str(s.check()) != 'sat':
             continue
         got = SR.concrete_rows(rel, s.model())
-        con = sqlite3.connect(':memory:')
+        con = SR.connect()
         for integ in ('int1', 'int2'):
             con.execute("ATTACH DATABASE ':memory:' AS %s" % integ)
         for t, cols in SCHEMA.items():
